@@ -1,13 +1,16 @@
 """C05: harnesses and stages (loaded by bin/checks.py)."""
 
-HARNESSES = {'c05_penalty': {'src': ['harness/c05_penalty.cpp']}}
+HARNESSES = {'c05_penalty': {'src': ['harness/c05_penalty.cpp']},
+             'c05_conc': {'src': ['harness/c05_conc.cpp', 'engine/sched.cpp']},
+             'c05_conc_free': {'cflags': '-DC05_NO_SCHED', 'src': ['harness/c05_conc.cpp']}}
 
 CHECKS = {'C05': {'level': 'exploration',
-         'engine': 'E3 lattice',
+         'engine': 'E3 lattice + E1 sched',
          'technique': 'bounded-exhaustive enumeration of (objective, constraint subset, point, penalty, multipliers) '
                       'against the formulas of function/penalty.h coded independently in long double, plus '
                       'augmented-Lagrangian runs on a stated lattice of small constrained problems judged by '
-                      'recomputed feasibility',
+                      'recomputed feasibility; preemption-bounded schedule exploration of concurrent evaluations of '
+                      'independent penalty functions and an exhaustive lattice of nested (re-entrant) ones',
          'level_text': 'formulas: 4 objectives (sphere, a harness quadratic, rosenbrock, exponential) at n in {2,3} x '
                        'every subset of size 0..3 (thorough 0..4) of a pool of 22 constraints (2 coefficient instances '
                        'of each of the 11 kinds) x 9 lattice points of [-5,5]^n (every constraint violated at some, '
@@ -18,7 +21,9 @@ CHECKS = {'C05': {'level': 'exploration',
                        'row (feasibility and boundedness decided by exact integer vertex enumeration), 4 (thorough 8) '
                        'objectives, KKT-constructed LP/QPs with n in {2,3,5}, quadratics constrained by a ball / a '
                        'box, x epsilon in {1e-4,1e-6,1e-8} (thorough +1e-10) x 3 starting points; a complete '
-                       'enumeration of these lattices, not a proof for other coefficients, points or problems',
+                       'enumeration of these lattices, not a proof for other coefficients, points or problems; '
+                       'independence: every schedule (<= 3, thorough 4 preemptions at the callback scheduling points) of '
+                       '2..3 threads evaluating their own penalty functions, and 3888 nested penalty-in-penalty cases',
          'level_note': 'trusted: the objective functions themselves (function_t::vgrad of the unconstrained objective '
                        'is the definition of f and grad f), long double arithmetic of the harness, g++ 12, the '
                        'alphabets as representatives of the quantifier domain',
@@ -50,4 +55,27 @@ CHECKS = {'C05': {'level': 'exploration',
                      'args': ['--stage', 'al'],
                      'share': 0.6,
                      'what': 'augmented-Lagrangian solver: converged => feasible within epsilon, stored constraint '
-                             'values and feasibility KKT residuals equal the recomputation'}]}}
+                             'values and feasibility KKT residuals equal the recomputation'},
+                    {'name': 'nested',
+                     'harness': 'c05_conc',
+                     'args': ['--stage', 'nested'],
+                     'share': 0.1,
+                     'what': 'a penalty function of every kind registered as the functional constraint of a penalty '
+                             'function of every kind (re-entrant evaluation) vs the formulas'},
+                    {'name': 'sched',
+                     'harness': 'c05_conc',
+                     'args_quick': ['--stage', 'sched', '--budget', '3', '--maxT', '3'],
+                     'args_thorough': ['--stage', 'sched', '--budget', '4', '--maxT', '3'],
+                     'crash_is_violation': True,
+                     'share': 0.3,
+                     'what': 'independent penalty functions evaluated by 2..3 threads under the controlled scheduler '
+                             '(scheduling points at the objective and functional-constraint callbacks): every '
+                             'schedule returns the serial value and gradient bit for bit'},
+                    {'name': 'free-tsan',
+                     'harness': 'c05_conc_free',
+                     'variant': 'tsan',
+                     'args': ['--stage', 'free'],
+                     'crash_is_violation': True,
+                     'share': 0.1,
+                     'what': 'the same bodies free-running under ThreadSanitizer (race oracle for state shared between '
+                             'evaluations at a finer grain than the callbacks)'}]}}
